@@ -17,7 +17,7 @@ RULE = ('case = (record lengths, content class, blocked?, writer API, reader API
 ASSUMPTIONS = ['vmon/ref/blocking.py', 'io.BytesIO', 'records are non-empty and at most MAX_VBS_RECORD_LENGTH (6000) bytes']
 CONTENTS = ('coded', 'zeros', 'fill', 'term_head', 'term_tail', 'pad_head', 'pad_tail', 'random')
 WRITE_APIS = ('class_close', 'with', 'write_many', 'conv', 'with_close')
-READ_APIS = ('class', 'conv', 'next_then_for', 'for_break_for', 'list_twice', 'second_reader_after_rewind')
+READ_APIS = ('class', 'conv', 'next_then_for', 'for_break_for', 'list_twice', 'second_reader_after_rewind', 'buffered_file_sniffed')
 _CODED = coded(10200)
 
 
@@ -166,6 +166,20 @@ def read_file(ctx, data, blocked, rapi):
                 for rec in r:
                     out.append(rec)
             return out
+        if rapi == 'buffered_file_sniffed':
+            # a real file behind an ordinary buffered reader that was looked at (the way ipm_info samples a file) and rewound
+            import os
+            import tempfile
+            fd, path = tempfile.mkstemp(prefix='vmon-c03-')
+            try:
+                with os.fdopen(fd, 'wb') as fh:
+                    fh.write(data)
+                with open(path, 'rb') as f:
+                    f.read(4 if len(data) % 3 else 2500)
+                    f.seek(0)
+                    return list(m.VbsReader(f, blocked=blocked))
+            finally:
+                os.unlink(path)
         if rapi == 'second_reader_after_rewind':
             # count first, then read: a reader that took part (or all) of the file, the file rewound, a new reader on the
             # same file object - the second one starts from the beginning with nothing left over from the first
